@@ -45,7 +45,7 @@ STATES = "QLRCXO"
 
 def channel(case):
     op = case.split(" ", 1)[0]
-    if op in ("rq", "sy", "la", "fs"):
+    if op in ("rq", "sy", "la", "fs", "rs"):
         return "l1"
     if op == "pl":
         return "l2"
@@ -187,20 +187,13 @@ def _gen_pl(rng, n):
         known = list(ids)
         inflight = set()
         ops = []
-        # A start whose runner was adopted by a probe and then closed must not complete afterwards:
-        # the real completion closure re-inserts the closed runner and the next closeRunner panics
-        # ("close of closed channel", notes/C14.md observation O1) -- outside C14, so not generated.
-        pending, adopted, tainted = set(), set(), set()
         for _ in range(rng.randint(1, 16)):
             r = rng.random()
             w = rng.choice(known)
             u = rng.choice([1, 2, 3, 4, 5])
             if r < 0.17:
                 ops.append("st%d:%d" % (rng.choice([1, 1, 2]), u))
-                pending.add(u)
             elif r < 0.27:
-                if u in tainted:
-                    continue
                 ops.append("sd%d" % u)
             elif r < 0.33:
                 ops.append("kl%d" % u)
@@ -210,8 +203,6 @@ def _gen_pl(rng, n):
                 ops.append("rn")
             elif r < 0.51:
                 ops.append("cr%d:%d" % (w, u))
-                if u in adopted:
-                    tainted.add(u)
             elif r < 0.55:
                 ops.append("sh%d" % w)
             elif r < 0.60:
@@ -242,12 +233,6 @@ def _gen_pl(rng, n):
                 ops.append("pa%d:%d:%d:%d:%s" % (w, rng.random() < 0.85, rng.random() < 0.15, rng.random() < 0.3,
                                                  "/".join(map(str, us)) or "-"))
                 inflight.discard(w)
-                for x in adopted:
-                    if x not in us:
-                        tainted.add(x)
-                for x in us:
-                    if x in pending:
-                        adopted.add(x)
         ops.append("rn")
         out.append("pl %s %s %s" % (",".join(ws), ",".join(ex) or "-", ",".join(ops)))
     return out
@@ -324,6 +309,23 @@ def _gen_lq(rng, n):
         uu = rng.sample(range(1, 9), rng.choice([1, 2, 3, 4]))
         recs = ["%d:%s:%d" % (u, rng.choice("QQQLLRCX"), rng.choice([0, 1, 5])) for u in uu]
         ops = []
+        if rng.random() < 0.3:
+            # a local state change lands between the list requests of one poll, after the poll has read the
+            # container; the poll's (older) reading must not replace it
+            u = uu[0]
+            st = rng.choice("QL")
+            recs[0] = "%d:%s:%d" % (u, st, rng.choice([1, 5]))
+            local = {"Q": ["lk%d" % u, "cn%d" % u], "L": ["ul%d" % u, "cn%d" % u]}[st]
+            ops = ["fu", "up"] + ["nx"] * rng.choice([1, 2, 3]) + [rng.choice(local)]
+            if rng.random() < 0.3:
+                ops.append(rng.choice(["ec%d" % u, "er%d" % u, "fg%d" % u]))
+            ops += ["nx"] * rng.choice([0, 1, 4]) + ["gt%d" % u]
+            if rng.random() < 0.5:
+                ops += ["fu", "gt%d" % u]
+            for x in uu[1:]:
+                ops.append("gt%d" % x)
+            out.append("lq %s %s" % (",".join(recs), ",".join(ops)))
+            continue
         if rng.random() < 0.7:
             ops.append("fu")
         for _ in range(rng.randint(2, 14)):
@@ -378,13 +380,38 @@ def _gen_e2e(rng, tier):
             "destroyerr": rng.choice([0, 10, 40]),
             "broken": rng.choice([0, 0, 7]), "missing": rng.choice([0, 0, 7]), "reportbroken": rng.choice([0, 0, 7]),
             "stale": 3000, "dur": 20000 if big else 9000,
+            # a long `crunch-run --detach` keeps containers Locked with a live process for a while, so that
+            # restarts meet stale locks whose processes survive
+            "detach": rng.choice([0, 0, 60, 150]),
         }
         out.append("e2e " + " ".join("%s=%d" % kv for kv in p.items()))
     return out
 
 
+def _gen_rs(rng, n):
+    """The real Scheduler.run() after a restart: at least one stale Locked container and an Unknown worker
+    (so fixStaleLocks must wait); `hidden` containers run on the Unknown instance and are discovered before
+    recovery ends (inside A1)."""
+    out = []
+    for _ in range(n):
+        k = rng.choice([1, 2, 3])
+        uuids = rng.sample(range(1, 7), k)
+        prios = rng.sample(range(1, 9), k)
+        ents = [(u, rng.choice("QLLLR"), p, rng.choice([1, 1, 2])) for u, p in zip(uuids, prios)]
+        ents[0] = (ents[0][0], "L", ents[0][2], ents[0][3])          # the stale lock
+        running = [e[0] for e in ents[1:] if rng.random() < 0.3]
+        hidden = [e[0] for e in ents if e[0] not in running and e[1] in "LR" and rng.random() < 0.7]
+        unalloc = [(t, rng.choice([1, 1, 2])) for t in (1, 2)]
+        script = "01" * 8 if rng.random() < 0.6 else "".join(rng.choice("01") for _ in range(12))
+        out.append("rs %s %s %s %s %s" % (
+            _j("%d:%s:%d:%d" % e for e in ents), _j(map(str, running)), _j(map(str, hidden)),
+            _j("%d:%d" % kv for kv in unalloc), script))
+    return out
+
+
 def generate(rng, tier):
     cases = []
+    cases += _gen_rs(rng, 12 if tier == "quick" else 150)
     cases += _gen_e2e(rng, tier)
     cases += _gen_fs(rng, 400 if tier == "quick" else 20000)
     cases += _gen_lq(rng, 1200 if tier == "quick" else 40000)
@@ -401,6 +428,9 @@ def generate(rng, tier):
 
 def compare(case, impl, model):
     op = case.split(" ", 1)[0]
+    if op == "rs":
+        # the model predicts the recovery part; what the passes after it do is judged by the oracle
+        return impl.rsplit(";double=", 1)[0] == model
     if op == "e2e":
         # no model prediction for a whole run: the oracle judges the observations
         return model == "e2e-no-model" and impl.startswith(("e2e ", "e2e-crash "))
@@ -580,19 +610,22 @@ def _parse_e2e(impl):
     if obs and obs != "-":
         for tok in obs.split(";"):
             f = tok.split("/")
-            if len(f) != 8:
+            if len(f) not in (8, 11):
                 return kv, None
             u, inst = f[0].split("@", 1)
-            starts.append({"uuid": int(u), "inst": inst, "others": [] if f[1] == "-" else f[1].split("."),
-                           "snap": f[2], "cache": f[3], "api": f[4], "killfalse": f[5] == "1",
-                           "held": f[6], "matched": f[7] == "1"})
+            st = {"uuid": int(u), "inst": inst, "others": [] if f[1] == "-" else f[1].split("."),
+                  "snap": f[2], "cache": f[3], "api": f[4], "killfalse": f[5] == "1",
+                  "held": f[6], "matched": f[7] == "1", "at_restart": "-", "since_ms": -1, "unknown": 0}
+            if len(f) == 11:
+                st.update({"at_restart": f[8], "since_ms": int(f[9]), "unknown": int(f[10])})
+            starts.append(st)
     return kv, starts
 
 
 # Panics of the dispatcher itself that were observed on the unchanged tree and are outside C14 (a crash
 # is a dispatcher restart at an arbitrary moment, which the property allows): notes/C14.md O1, O2.
 KNOWN_PANICS = [
-    ("close of closed channel", "closeRunner"),          # O1: a closed runner re-inserted by a late start completion
+    ("close of closed channel", "Close"),                # O1 remnant after fix 18910db: a worker dropped by Pool.sync closes its runners in wkr.Close() while a probe of that (orphaned) worker is still being applied
     ("nil pointer dereference", "reportSSHConnected"),   # O2: worker dropped during an SSH handshake
 ]
 
@@ -646,6 +679,19 @@ def oracle(case, impl):
         return _oracle_la(f, impl)
     if f[0] == "pl":
         return _oracle_pl(f, impl)
+    if f[0] == "rs":
+        if ";double=" not in impl:
+            return "driver could not observe the restart: " + impl[:200]
+        early = impl.split(";", 1)[0][len("early="):]
+        m = re.search(r"st\d+:(\d+)=1", early)
+        hidden = set(_split(f[3]))
+        if m and m.group(1) in hidden:
+            return (f"after a restart container {m.group(1)} was started while the instance that still runs it had "
+                    f"not been probed and fixStaleLocks was still waiting")
+        d = impl.rsplit(";double=", 1)[1]
+        if d != "-":
+            return f"container(s) {d} started while a process of the same container is alive on another instance"
+        return None
     if f[0] == "fs":
         if ";double=" not in impl:
             return "driver could not observe the passes: " + impl[:200]
@@ -672,11 +718,14 @@ def _oracle_lq(f, impl):
         u, st, pr = r.split(":")
         api[int(u)] = st
     it = iter(res)
+    finished = set()     # containers this dispatcher has cancelled itself or has seen finished in its queue
     for op in _split(f[2]):
         k, arg = op[:2], op[2:]
         if k in ("lk", "ul", "cn"):
             ok = next(it, None) == "k"
             u = int(arg)
+            if ok and k == "cn":
+                finished.add(u)
             if ok:
                 want = {"lk": "Q", "ul": "L"}.get(k)
                 if k != "cn" and api.get(u) != want:
@@ -697,6 +746,11 @@ def _oracle_lq(f, impl):
         elif k == "gt":
             got = next(it, None)
             u = int(arg)
+            if got in ("C", "X"):
+                finished.add(u)
+            elif got in ("Q", "L", "R") and u in finished:
+                return (f"the queue shows container {u} as {got} again after this dispatcher had cancelled it or "
+                        f"had seen it finished (it could be started again)")
             if got == "L" and api.get(u) in ("Q", None):
                 return (f"the queue shows container {u} as Locked while its API record is "
                         f"{api.get(u) or 'unknown'} (not locked by this dispatcher)")
@@ -718,8 +772,16 @@ def finding_of(case, impl, why):
         kv, starts = _parse_e2e(impl)
         if not starts or int(kv.get("restarts", "0")) == 0:
             return None
+        stale_ms = int(dict(x.split("=") for x in f[1:] if "=" in x).get("stale", "3000"))
         dbl = [s for s in starts if s["others"]]
-        if dbl and all(all(o.endswith("*") for o in s["others"]) for s in dbl):
+
+        def a1_escape(s):
+            # the first process sits on instances not probed since the restart, and recovery had a reason the
+            # code accepts for not waiting any longer: the container was not Locked at the restart (nothing
+            # stale to wait for), the stale-lock timeout had passed, or no worker was Unknown any more
+            return (all(o.endswith("*") for o in s["others"]) and s["matched"] and
+                    (s["at_restart"] != "L" or s["since_ms"] >= stale_ms or s["unknown"] == 0))
+        if dbl and all(a1_escape(s) for s in dbl):
             return "F11"
     return None
 
